@@ -1184,16 +1184,30 @@ def correspondence(ctx):
     n_table = 0
     sample_every = 104729
     passes = [(p, None) for p in prefixes] + ctx.budget([], [("exposed_", CUSTOM_SAFE), ("", CUSTOM_SAFE)])
-    for p, safe in passes:
-        lines, recs = [], []
-        for case, cfgl, setup, line, thunk, shape in table_cases([p], safe=safe):
-            for l in cfgl + setup:
-                lines.append(l)
-                recs.append(None)
-            lines.append(line)
-            recs.append((case, thunk(), shape))
+    # the model driver works on one pass (in a helper thread: it is a subprocess) while the real code runs the next
+    import concurrent.futures
+    pool = concurrent.futures.ThreadPoolExecutor(1)
+
+    def produce():
+        """passes with their driver future; at most two passes are alive at a time"""
+        prev = None
+        for p, safe in passes:
+            lines, recs = [], []
+            for case, cfgl, setup, line, thunk, shape in table_cases([p], safe=safe):
+                for l in cfgl + setup:
+                    lines.append(l)
+                    recs.append(None)
+                lines.append(line)
+                recs.append((case, thunk(), shape))
+            cur = (p, safe, lines, recs, pool.submit(run_driver, lines, "drv_policy"))
+            if prev is not None:
+                yield prev
+            prev = cur
+        if prev is not None:
+            yield prev
+    for p, safe, lines, recs, fut in produce():
         try:
-            outs = run_driver(lines, exe="drv_policy")
+            outs = fut.result()
         except DriverError as ex:
             c.error = str(ex)
             return c
